@@ -9,11 +9,13 @@ for d in sorted(glob.glob("seeded/*/")):
     m = json.load(open(d + "meta.json"))
     notes = m.get("what_it_needs_to_manifest", "")
     title = ""
+    # the first line of the notes is the one-line title (with or without a leading '#')
     for line in notes.splitlines():
-        if line.strip().startswith("#"):
-            title = line.strip("# ").strip()
+        t = line.strip("# ").strip()
+        if t and not set(t) <= set("=-") and t.lower() not in ("the change", "change", "what the change is"):
+            title = t
             break
-    title = re.sub(r"^(Seed(ed change)?\s*\S*\s*[/ ]?\s*\d*\s*[-—–]+\s*|C\d\d seed \d\s*[-—–]+\s*)", "", title, flags=re.I).replace("|", "/")
+    title = re.sub(r"^(Seed(ed change)?\s*\S*\s*[/ ]?\s*\d*\s*[-—–:]+\s*|C\d\d[ ,]*(round \d,?\s*)?seed \S*\s*[-—–:]+\s*)", "", title, flags=re.I).replace("|", "/")
     diff = open(d + "patch.diff").read()
     files = sorted(set(re.findall(r"^\+\+\+ b/(\S+)", diff, re.M)))
     det = []
